@@ -34,7 +34,9 @@ def one(cases, rng, tier, d, rep, dtname, init, preset=None):
     box = {}
 
     def impl():
-        layer = torchtt.nn.LinearLayerTT(list(sin), list(sout), list(R), dtype=dt, initializer=init)
+        # the sizes may be given as lists, tuples or torch.Size objects (e.g. `x.shape[1:]`)
+        form = [list, tuple, tn.Size][rep % 3]
+        layer = torchtt.nn.LinearLayerTT(form(sin), form(sout), list(R), dtype=dt, initializer=init)
         names = [n for n, _ in layer.named_parameters()]
         box["names"] = names
         box["shapes"] = [tuple(p.shape) for p in layer.parameters()]
@@ -203,7 +205,12 @@ def run(res, rng, tier, known):
     # deterministic family: four modes with strongly asymmetric size / rank profiles (a wide last input mode, a wide first output mode, a
     # size-1 output mode, equal middle output modes) — any sweep-order or cost-driven variant of the contraction must give the same map
     fam4 = [([2, 2, 2, 5], [5, 2, 2, 2], [1, 2, 3, 2, 1]), ([2, 3, 2, 4], [4, 3, 3, 2], [1, 2, 2, 3, 1]), ([2, 2, 3, 5], [4, 2, 3, 1], [1, 3, 2, 2, 1]),
-            ([5, 2, 2, 2], [2, 2, 2, 5], [1, 2, 3, 2, 1]), ([1, 1, 1, 3], [2, 1, 2, 1], [1, 2, 2, 2, 1])]
+            ([5, 2, 2, 2], [2, 2, 2, 5], [1, 2, 3, 2, 1]), ([1, 1, 1, 3], [2, 1, 2, 1], [1, 2, 2, 2, 1]), ([1, 1, 1, 3], [2, 1, 2, 1], [1, 2, 2, 2, 1]),
+            ([1, 1, 1, 3], [2, 1, 2, 1], [1, 2, 2, 2, 1])]
+    fam2 = [([1, 4], [2, 3], [1, 2, 1]), ([1, 4], [2, 3], [1, 2, 1]), ([1, 4], [2, 3], [1, 2, 1]), ([1, 1, 5], [2, 2, 1], [1, 2, 2, 1]), ([1, 1, 5], [2, 2, 1], [1, 2, 2, 1]),
+            ([1, 1], [3, 2], [1, 2, 1])]
+    for fi, pre in enumerate(fam2):
+        one(cases, rng, tier, len(pre[0]), fi, ["f64", "f32"][fi % 2], ["He", "Glo"][(fi // 2) % 2], preset=pre)
     for fi, pre in enumerate(fam4):
         one(cases, rng, tier, 4, fi, ["f64", "f32"][fi % 2], ["He", "Glo"][(fi // 2) % 2], preset=pre)
     for hi in range(6 if tier == "quick" else 40):
